@@ -92,6 +92,37 @@ def gen_cycle_back_case(rng, cid, dbdir=None):
     cb.end()
     return cb
 
+def gen_disc_cycle_case(rng, cid, dbdir=None):
+    """C07: a cycle that exists only among recorded dependencies: A discovers the derived key D while it runs, D requests A
+    (no cycle in that build: A is complete when D asks); a later build of a key R that was never built requests A while
+    A and D are up to date and merely scanned: R -> A -> D -> A."""
+    prog = gen_program(rng, cyclic=False, allow=("follow", "dyn", "force", "out"))
+    A, D, R = rng.sample(DERIVED, 3)
+    for k in (A, D, R):
+        prog[k]["valid"] = True
+        prog[k]["start"] = [r for r in prog[k]["start"] if r["k"] in LEAVES] or [dict(k=rng.choice(LEAVES), kind="in")]
+        prog[k]["dynOn"] = "none"; prog[k]["dynThen"] = []; prog[k]["dynElse"] = []; prog[k]["disc"] = []
+        prog[k]["proj"] = [r["k"] for r in prog[k]["start"] if r["kind"] == "in"]
+    prog[A]["disc"] = [D]
+    prog[D]["start"] = prog[D]["start"] + [dict(k=A, kind=rng.choice(["in", "follow"]))]
+    prog[R]["start"] = prog[R]["start"] + [dict(k=A, kind="in")]; prog[R]["proj"].append(A)
+    other = [k for k in DERIVED if k not in (A, D, R)][0]
+    prog[other] = dict(prog[other]); prog[other]["start"] = [r for r in prog[other]["start"] if r["k"] in LEAVES] or [dict(k="a", kind="in")]
+    prog[other]["dynOn"] = "none"; prog[other]["dynThen"] = []; prog[other]["dynElse"] = []; prog[other]["disc"] = []
+    prog[other]["proj"] = [r["k"] for r in prog[other]["start"] if r["kind"] == "in"]
+    ext = {l: rng.randrange(2) for l in LEAVES}; ext.update({k: 0 for k in DERIVED})
+    cb = CaseBuilder(cid, prog, ext)
+    usedb = dbdir is not None and rng.random() < 0.5
+    dbpath = "%s/%s.db" % (dbdir, cid) if usedb else None
+    cb.engine(db=dbpath)
+    cb.build(A, mode=rng.choice(["sync", "det"]), seed=rng.randrange(1 << 30), defer=100)
+    if usedb and rng.random() < 0.5: cb.engine(db=dbpath)
+    if rng.random() < 0.3:
+        l = rng.choice(LEAVES); cb.mutate(l, 1 - cb.ext[l])
+    cb.build(R, mode=rng.choice(["sync", "det"]), seed=rng.randrange(1 << 30), defer=100)
+    cb.end()
+    return cb
+
 def rule_line(k, r):
     def reqs(l): return ",".join("%s:%s" % (x["k"], x["kind"]) for x in l)
     return ("rule %s leaf=%d sig=%d base=%d force=%d valid=%d out=%d start=%s dyn=%s then=%s else=%s disc=%s proj=%s" %
